@@ -104,7 +104,7 @@ Proof.
   destruct s; try exact I. eapply Nat.lt_le_trans; eassumption.
 Qed.
 
-Lemma tx_bytes_keep_app h b keep x l : slots_in (length keep) l -> tx_bytes h b (keep ++ [x]) l = tx_bytes h b keep l.
+Lemma tx_bytes_keep_app h b keep xs l : slots_in (length keep) l -> tx_bytes h b (keep ++ xs) l = tx_bytes h b keep l.
 Proof.
   intros H. unfold tx_bytes. f_equal. induction H as [|s t Hs Ht IH]; [reflexivity|]. cbn [map]. rewrite IH. f_equal.
   destruct s; try reflexivity. apply app_nth1. exact Hs.
@@ -272,7 +272,7 @@ Proof. intros H. destruct c; ok_tac. Qed.
 Lemma set_rx_ok c rx : conn_ok c -> conn_ok (set_tx c rx (c_tx_header c) (c_tx_body c) (c_keep c)).
 Proof. intros H. destruct c; ok_tac. Qed.
 
-Lemma set_keep_ok c rx x : conn_ok c -> conn_ok (set_tx c rx (c_tx_header c) (c_tx_body c) (c_keep c ++ [x])).
+Lemma set_keep_ok c rx xs : conn_ok c -> conn_ok (set_tx c rx (c_tx_header c) (c_tx_body c) (c_keep c ++ xs)).
 Proof.
   intros (A & B & C & D). destruct c; unfold conn_ok in *; cbn in *.
   split; [exact A | split; [exact B | split; intros s0 sn E]].
